@@ -17,10 +17,10 @@ build_demo() {
 }
 build_demo || { echo "DEMO BUILD FAILED" >> $OUT; exit 1; }
 ( cd _seed && timeout 120 ./demo.bin > demo_with.out 2>&1; echo "demo with change: exit=$?" ) >> $OUT
-git stash -q
+git diff > _seed/.confirm.patch; git apply -R _seed/.confirm.patch
 cmake --build _b >/dev/null 2>&1
 build_demo
 ( cd _seed && timeout 120 ./demo.bin > demo_without.out 2>&1; echo "demo without change: exit=$?" ) >> $OUT
-git stash pop -q
+git apply _seed/.confirm.patch; rm -f _seed/.confirm.patch
 cmake --build _b >/dev/null 2>&1
 cat $OUT
